@@ -39,7 +39,7 @@ def parsePath (allowStdin allowLabels : Bool) (p : Bytes) : Input :=
   else
     { path := p, label := p, isStdin := allowStdin && p == [45], isLabeled := false }
 
-/-- `pathCount[p]`: how many elements of `f.Paths` are unlabelled and have path `p`. -/
+/-- `pathCount[p]`: how many inputs are unlabelled and have path `p`. -/
 def pathCount (parsed : List Input) (p : Bytes) : Nat :=
   (parsed.filter (fun i => !i.isLabeled && i.path == p)).length
 
@@ -59,7 +59,8 @@ def Files.init (paths : List Bytes) (allowStdin allowLabels : Bool) : List Input
   let dflt : List Input :=
     if allowStdin && paths.isEmpty then [{ path := [45], label := [45], isStdin := true, isLabeled := false }]
     else []
-  disambiguate (pathCount parsed) [] (dflt ++ parsed)
+  -- the implicit stdin input counts as one occurrence of the path "-" (`pathCount["-"]++`)
+  disambiguate (pathCount (dflt ++ parsed)) [] (dflt ++ parsed)
 
 /-- The world `Files` reads from. -/
 structure FS where
